@@ -31,6 +31,14 @@ UTIL_FNS = ["linear_cg", "minres", "lanczos_tridiag", "psd_safe_cholesky", "stab
 # generation
 
 
+def w_shape_of(ops, tid):
+    for o in ops:
+        if o.get("id") == tid:
+            t = torch.tensor(o["data"])
+            return tuple(t.shape)
+    return ()
+
+
 def gen_util(g, w):
     rng = g.rng
     if not hasattr(g, "util_fns"):
@@ -61,8 +69,16 @@ def gen_util(g, w):
              "tolerance": rng.choice([None, 1e-3, 1e-8]), "max_iter": rng.choice([None, 0, 1, 3, 50])}
         if a["n_tridiag"] and torch.Size(batch + [n, 1]) and rng.random() < 2:
             a["max_tridiag_iter"] = rng.choice([1, 3, n])
-        if rng.random() < 0.4:
-            a["initial_guess"] = "like_rhs"
+        if rng.random() < 0.55:
+            # explicit initial guess: the rhs tensor itself (aliasing), a pre-allocated all-zero buffer, or a random guess
+            kind = rng.choice(["alias", "zeros", "zeros", "random"])
+            if kind == "alias":
+                a["initial_guess"] = "like_rhs"
+            else:
+                shp = list(w_shape_of(ops, a["rhs"]))
+                if kind == "zeros" and rng.random() < 0.3 and len(shp) >= 2:
+                    shp[-1] = 1  # a zero guess that needs broadcasting
+                a["initial_guess"] = T(torch.zeros(*shp, dtype=torch.float64) if kind == "zeros" else g.randn(*shp), "initial guess")
         if rng.random() < 0.3:
             a["precond"] = T(g.posvec(n), "diagonal preconditioner")
         if rng.random() < 0.15:
@@ -130,7 +146,18 @@ def gen_util(g, w):
     elif fn in ("bdsmm", "dsmm", "sparse_getitem", "sparse_repeat", "to_sparse"):
         M = g.randn(*(([2] if fn in ("bdsmm",) else []) + [n, n]))
         M[M.abs() < 0.7] = 0.0
+        if rng.random() < 0.4:
+            lo = rng.randrange(0, max(1, n - 1))
+            hi = rng.randint(lo + 1, n)
+            band = torch.zeros_like(M)
+            band[..., lo:hi, :] = M[..., lo:hi, :] + 0.5  # every stored entry lies in rows lo..hi
+            M = band
+            a_band = [lo, hi]
+        else:
+            a_band = None
         a = {"M": T(M, "matrix to sparsify")}
+        if a_band and fn == "sparse_getitem":
+            a["slice"] = [a_band[0], a_band[1]] if rng.random() < 0.7 else [max(0, a_band[0] - 1), a_band[1]]
         if fn in ("bdsmm", "dsmm"):
             a["rhs"] = T(g.randn(*(([2] if fn == "bdsmm" else []) + [n, 2])), "rhs")
         if fn == "sparse_getitem":
@@ -217,9 +244,10 @@ def _run(w, fn, a, get):
         for k in ("n_tridiag", "tolerance", "max_iter", "max_tridiag_iter"):
             if a.get(k) is not None:
                 kw[k] = a[k]
-        if a.get("initial_guess"):
-            ig = get(a["rhs"])  # the same caller tensor doubles as initial guess (aliasing)
-            kw["initial_guess"] = ig
+        if a.get("initial_guess") == "like_rhs":
+            kw["initial_guess"] = get(a["rhs"])  # the same caller tensor doubles as initial guess (aliasing)
+        elif a.get("initial_guess"):
+            kw["initial_guess"] = get(a["initial_guess"])
         if a.get("precond"):
             d = get(a["precond"])
             kw["preconditioner"] = lambda x: x / d.unsqueeze(-1)
@@ -277,12 +305,14 @@ def _run(w, fn, a, get):
         sp = sparse.to_sparse(M)
         if fn == "to_sparse":
             return [sp.to_dense()]
+        w._sparse_arg = (sp, sp.to_dense().clone())  # the sparse tensor is caller-owned from here on
         if fn == "bdsmm":
             return [sparse.bdsmm(sp, get(a["rhs"]))]
         if fn == "dsmm":
             return [linear_operator.dsmm(sp, get(a["rhs"]))]
         if fn == "sparse_getitem":
-            return [sparse.sparse_getitem(sp, (a["i"],)).to_dense()]
+            idx = (slice(a["slice"][0], a["slice"][1]),) if a.get("slice") else (a["i"],)
+            return [sparse.sparse_getitem(sp, idx).to_dense()]
         return [sparse.sparse_repeat(sp, *a["sizes"]).to_dense()]
     if fn == "inverse_permutation":
         return [permutation.inverse_permutation(get(a["perm"]))]
@@ -453,6 +483,16 @@ def op_util(w, i, op):
         for _, t_, snap_, base_ in w.returned:
             snap_.requires_grad = base_.requires_grad
     w.check_conservation(fn)
+    sa = getattr(w, "_sparse_arg", None)
+    if sa is not None:
+        w._sparse_arg = None
+        try:
+            now = sa[0].to_dense()
+            same = now.shape == sa[1].shape and torch.equal(now, sa[1])
+        except Exception:
+            same = False
+        if not same and w.mode == "C13":
+            w.violate("C13", "sparse-argument-mutated", "sparse", fn, f"step {i} ({fn}): the sparse matrix passed by the caller represents a different matrix after the call")
     # results handed back to the caller are caller-owned from now on
     if out is not None and not w.violations:
         for j, x in enumerate(_flatten(out)):
